@@ -35,9 +35,20 @@ fn eval_eager<T: Idx, QQ: Inst<T>>(q: Q, t: &Tree, inter: &mut Vec<Moc>) -> Rang
   r
 }
 
-fn ctor<T: Idx, QQ: Inst<T>>(which: u8, d: u8, v: &[(u64, u64)]) -> Result<Vec<(u64, u64)>, String> {
+fn ctor<T: Idx, QQ: Inst<T>>(which: u8, d: u8, v: &[(u64, u64)], cap: usize) -> Result<Vec<(u64, u64)>, String> {
   let data: Vec<Range<T>> = v.iter().map(|(a, b)| T::from_u64(*a)..T::from_u64(*b)).collect();
+  // the same input as depth-d cell numbers, in the order given (builders fed with cells)
+  let sh = <QQ as moc::qty::MocQty<T>>::shift_from_depth_max(d) as u32;
+  let cells: Vec<T> = v.iter().flat_map(|(a, b)| (a >> sh)..(b >> sh)).map(T::from_u64).collect();
+  let out = |m: &RangeMOC<T, QQ>| -> Vec<(u64, u64)> { m.moc_ranges().iter().map(|r| (r.start.to_u64(), r.end.to_u64())).collect() };
   catch(move || match which {
+    6 => out(&RangeMOC::<T, QQ>::from_fixed_depth_cells(d, cells.into_iter(), Some(cap))),
+    7 => out(&RangeMOC::<T, QQ>::from_cells(d, cells.into_iter().map(|c| (d, c)), Some(cap))),
+    8 => {
+      let k = cells.len() / 2;
+      let first = RangeMOC::<T, QQ>::from_fixed_depth_cells(d, cells[..k].iter().cloned(), Some(cap));
+      out(&first.append_fixed_depth_cells(d, cells[k..].iter().cloned(), Some(cap)))
+    }
     0 => MocRanges::<T, QQ>::new_from(data).iter().map(|r| (r.start.to_u64(), r.end.to_u64())).collect(),
     1 => MocRanges::<T, QQ>::new_from_sorted(data).iter().map(|r| (r.start.to_u64(), r.end.to_u64())).collect(),
     2 => ranges_of(merge_random::<T, QQ>(d, data)),
@@ -57,7 +68,7 @@ pub fn run(ctx: &Ctx) -> Report {
   let mut rep = Report::default();
   let mut orc = Oracle::spawn();
   let mut rng = Rng::new(ctx.seed);
-  rep.rule = "constructors (new_from, new_from_sorted, merge_random, merge_sorted, from_maxdepth_ranges, merge_sorted.into_range_moc) on random valid range lists (non-empty ranges; unsorted / overlapping / touching / duplicated) compared with extracted canon_of; eager expression trees (height <= 4) over canonical leaves: every intermediate result through extracted valid_mocb, final result = extracted Expr.eval. non-trivial = input has >= 2 ranges (constructors) / tree has >= 3 nodes; distinct = distinct case line".to_string();
+  rep.rule = "constructors (new_from, new_from_sorted, merge_random, merge_sorted, from_maxdepth_ranges, merge_sorted.into_range_moc, and the cell-fed builders from_fixed_depth_cells / from_cells / append_fixed_depth_cells with buffer capacities 1..4, fed sorted or unsorted) on random valid range lists (non-empty ranges; unsorted / overlapping / touching / duplicated) compared with extracted canon_of; eager expression trees (height <= 4) over canonical leaves: every intermediate result through extracted valid_mocb, final result = extracted Expr.eval. non-trivial = input has >= 2 ranges (constructors) / tree has >= 3 nodes; distinct = distinct case line".to_string();
   let n = ctx.n(4_000, 120_000);
   for i in 0..n {
     let q = ALL_Q[rng.below(3) as usize];
@@ -81,15 +92,16 @@ pub fn run(ctx: &Ctx) -> Report {
       let x = v[0];
       v.push(x);
     }
-    let which = (i % 6) as u8;
-    if which % 2 == 1 || which == 5 {
+    let which = (i % 9) as u8;
+    let cap = 1 + ((i / 9) % 4) as usize;
+    if which % 2 == 1 || which == 5 || (which >= 6 && (i / 36) % 2 == 0) {
       v.sort_unstable_by_key(|r| r.0);
     }
-    let case = format!("CANON {} # ctor={} q={} w={} d={}", ranges_str(&v), which, q.c(), w, d);
+    let case = format!("CANON {} # ctor={} q={} w={} d={} cap={}", ranges_str(&v), which, q.c(), w, d, cap);
     let ans = orc.ask(case.split('#').next().unwrap());
-    let got = dispatch!(q, w, |T, QQ| ctor::<T, QQ>(which, d, &v));
+    let got = dispatch!(q, w, |T, QQ| ctor::<T, QQ>(which, d, &v, cap));
     rep.evaluations += 1;
-    rep.count(&format!("ctor:{}", ["new_from", "new_from_sorted", "merge_random", "merge_sorted", "from_maxdepth_ranges", "merge_sorted.into_range_moc"][which as usize]));
+    rep.count(&format!("ctor:{}", ["new_from", "new_from_sorted", "merge_random", "merge_sorted", "from_maxdepth_ranges", "merge_sorted.into_range_moc", "from_fixed_depth_cells", "from_cells", "append_fixed_depth_cells"][which as usize]));
     let obs = match &got {
       Ok(r) => format!("OK {}", ranges_str(r)),
       Err(p) => p.clone(),
